@@ -33,13 +33,18 @@ func ZZ_C12_edsIsolation() {
 	if sameName {
 		yNs, yName = "ns2", "foo"
 	}
+	// ... or a name that extends X's with a dash ("foo-gpu"): its replica sets' names start with "foo-" too
+	yExtendsX := !sameName && nondet.Bool("y.nameExtendsTheNameOfX")
+	if yExtendsX {
+		yName = "foo-gpu"
+	}
 	var canary *datadoghqv1alpha1.ExtendedDaemonSetSpecStrategyCanary
 	if nondet.Bool("x.canaryStrategy") {
 		canary = &datadoghqv1alpha1.ExtendedDaemonSetSpecStrategyCanary{Duration: &metav1.Duration{Duration: 10 * time.Minute}}
 	}
 	xTpl := zzPickTpl("x.template")
 	xName := "foo"
-	if !sameName && nondet.Bool("x.nameLongerThan63") {
+	if !sameName && !yExtendsX && nondet.Bool("x.nameLongerThan63") {
 		// a valid object name that is not a valid label value
 		xName = "foo-0123456789-0123456789-0123456789-0123456789-0123456789-0123456789"
 	}
@@ -151,6 +156,7 @@ func ZZ_C12_edsIsolation() {
 	nondet.Assert("C12.eds.creates-own", (c.Count("create", "ExtendedDaemonSetReplicaSet") == 1) == !xHasMatching)
 	nondet.Fact("sameName", sameName)
 	nondet.Reach("C12.eds.long-name", xName != "foo" && len(ys) > 0)
+	nondet.Reach("C12.eds.name-of-y-extends-the-name-of-x", yExtendsX && len(ys) > 0 && !xHasA)
 	nondet.Reach("C12.eds.same-name-foreign-rs", sameName && len(ys) > 0)
 	nondet.Reach("C12.eds.foreign-matches-template", len(ys) > 0 && !xHasMatching)
 }
